@@ -4,6 +4,7 @@ CONSTANTS
   Handles = {"h1", "h2"}
   MCBuild = "exc"
   EmitEdges = FALSE
+  TestDefaultOn = TRUE
 VIEW View
 INVARIANTS TypeOK SelValid HeapExact RegSound
 PROPERTIES Isolation PrecIndependent SelSticky SelMoves EvalPure FatalIntact FatalOnlyIfMisuse NoUseBeforeInit ReinitFresh SetThenGet
